@@ -94,6 +94,8 @@ Definition conc_close_ok (i : cscenario) (o : cobs) : bool :=
       (* every close() came back (a second close() may report 'channel closed'), and the
          channel is closed *)
       forallb (fun e => completed (ce_res e)) closes &&
+      (* the broker answers at once here: no close() sits out its rpc time-out *)
+      forallb (fun e => ce_dur e <? 1500) closes &&
       match find (fun cs => Nat.eqb (fst cs) c) (co_final o) with
       | Some (_, sn) => st_eqb (sn_state sn) CLOSED
       | None => false
